@@ -733,3 +733,12 @@ Example run_example :
   (abs s 0, counter s 0, abs s 1, counter s 1, abs s 2, counter s 2)
   = ([7; 4], 1, [7; 7; 0; 0; 0], 1, [7; 7; 9], 1)%Z.
 Proof. vm_compute. reflexivity. Qed.
+
+(* No_defect: both cases occur - a write inside the documented index range meets no defect, one outside is refused *)
+Example no_defect_example :
+  let s := run all_fixed (init 2) [OBuild 0 2 7%Z; ONoCopy 1 0] in
+  (op_pre s (OWrite 1 1 9%Z), r_df (step all_fixed s (OWrite 1 1 9%Z)), abs (r_s (step all_fixed s (OWrite 1 1 9%Z))) 0,
+   op_pre s (OWrite 1 2 9%Z), r_df (step all_fixed s (OWrite 1 2 9%Z)), abs (r_s (step all_fixed s (OWrite 1 2 9%Z))) 0,
+   get_counter false s 0, get_counter false (init 2) 0, get_counter true (init 2) 0)
+  = (true, None, [7; 9], false, Some DOutOfRange, [7; 7], Some 2, None, Some 0)%Z.
+Proof. vm_compute. reflexivity. Qed.
